@@ -195,6 +195,8 @@ V['C14'] = [
     ('shift parity', EXT, 'i_0 = old_n % 2', 'i_0 = n % 2', 'F', 'R-DEA-TABLE'),
     ('EpsAlg guard EPS', EXT, 'if np.abs(delta) <= 1.0e-60:', 'if np.abs(delta) <= _EPS:', 'F', 'R-EPSALG-GUARD'),
     ('Dea irregular test loses abs', EXT, 'epsinf = abs(sss*e_1)', 'epsinf = sss * e1abs', 'F', 'R-DEA-DEA3'),
+    ('revert fix 145ed5d (short-table branch without the floor)', EXT, 'abserr = max(6.0 * abs(result - epstab[0]), 5.0 * _EPS * abs(result))', 'abserr = 6.0 * abs(result - epstab[0])', 'F', 'R-DEA-FLOOR'),
+    ('floor of the short-table branch applied after the branches', EXT, '            abserr = max(6.0 * abs(result - epstab[0]), 5.0 * _EPS * abs(result))\n        else:\n            result, abserr, n = self._dea(epstab, n)\n', '            abserr = 6.0 * abs(result - epstab[0])\n        else:\n            result, abserr, n = self._dea(epstab, n)\n        abserr = max(abserr, 5.0 * _EPS * abs(result))\n', 'S', None),
     ('Dea irregular test as a product of magnitudes', EXT, 'epsinf = abs(sss*e_1)', 'epsinf = abs(sss) * e1abs', 'S', None),
 ]
 V['C15'] = [
